@@ -177,7 +177,7 @@ THEOREMS = ["T_Consistent: ctrlpts[i] * weights[i] = ctrlptsw[i] in every reacha
 
 
 def run(ctx):
-    res = core.run_tlc("MC_C09", "MC_C09_%s.cfg" % ctx.tier, timeout=3400)
+    res = core.run_model(ctx, "MC_C09", 3400, thorough_seeds=(2, 3))
     core.tlc_must_pass(res, "MC_C09")
     ctx.add_tlc(res, "all histories of setters / weight scaling / reads up to the depth bound on rational curves, surfaces, volumes")
     resb = core.run_model(ctx, "MC_C09b", 3400, thorough_seeds=(2, 3, 5))
